@@ -18,6 +18,8 @@ def make_array(rng, shape, dtype, layout, pool=None, nan=True):
         if nan and rng.random() < 0.6:
             for _ in range(rng.randint(1, 2)):
                 base[rng.randrange(h), rng.randrange(w)] = np.nan
+        if nan and rng.random() < 0.25:
+            base[rng.randrange(h), rng.randrange(w)] = rng.choice([np.inf, -np.inf])
     a = base.astype(dtype)
     if layout == "F":
         a = np.asfortranarray(a)
